@@ -132,10 +132,17 @@ def generate(repo, outdir):
 
     def writer_ops():
         fn = _method(tree, "WriterThread", "run")
+        withs = [n for n in ast.walk(fn) if isinstance(n, ast.With) and "env.begin(" in ast.unparse(n.items[0])]
+        if len(withs) != 1:
+            raise Unsupported("%d write transactions in the writer loop" % len(withs))
         ops = []
-        for n in ast.walk(fn):
-            if isinstance(n, ast.Compare) and ast.unparse(n.left) == "operation" and isinstance(n.comparators[0], ast.Constant):
-                ops.append(n.comparators[0].value)
+        node = withs[0].body[0]
+        while isinstance(node, ast.If):
+            cmp = [n for n in ast.walk(node.test) if isinstance(n, ast.Compare) and ast.unparse(n.left) == "operation"]
+            if len(cmp) != 1 or not isinstance(cmp[0].comparators[0], ast.Constant):
+                raise Unsupported("branch test %s" % ast.unparse(node.test))
+            ops.append(cmp[0].comparators[0].value)
+            node = node.orelse[0] if len(node.orelse) == 1 else None
         if ops != ["add", "del", "reindex", "bulk_update"]:
             raise Unsupported("writer operations are %s" % ops)
         text = ast.unparse(fn)
@@ -145,24 +152,33 @@ def generate(repo, outdir):
             raise Unsupported("not exactly one write transaction per task")
         if "except Exception:\n" not in text:
             raise Unsupported("exception handling of the writer loop changed")
-        return "Definition writer_ops : list pystr := [%s].\nDefinition one_txn_per_task : bool := true.\n" % "; ".join(coq_str(x) for x in ops)
+        tries = [n for n in ast.walk(fn) if isinstance(n, ast.Try)]
+        if len(tries) != 1 or "if operation == 'add':\n    self.in_flight.discard(args[0].id)" not in ast.unparse(ast.Module(body=tries[0].finalbody, type_ignores=[])):
+            raise Unsupported("the writer no longer forgets the id of a processed add in its finally block")
+        return "Definition writer_ops : list pystr := [%s].\nDefinition one_txn_per_task : bool := true.\nDefinition forgets_in_flight_after_add : bool := true.\n" % "; ".join(coq_str(x) for x in ops)
     target(out, "kvwrite.WriterThread.run", writer_ops)
 
     def add_event():
         fn = _method(tree, "LMDBStorage", "add_event")
         text = ast.unparse(fn)
         order = ["await self.validate_event(event, Config)", "if not event.is_ephemeral:", "self.check_storable(event)",
-                 "if get_event_data(txn, event.id_bytes):", "return (event, False)", "self.writer_queue.put(('add', [event]))",
-                 "await self.post_save(event)", "return (event, True)"]
+                 "in_flight = self.writer_thread.in_flight", "if event.id in in_flight:", "return (event, False)",
+                 "if get_event_data(txn, event_id):", "return (event, False)", "in_flight.add(event.id)",
+                 "self.writer_queue.put(('add', [event]))", "await self.post_save(event)", "return (event, True)"]
         pos = -1
+        marks = {}
         for piece in order:
             p = text.find(piece, pos + 1)
             if p < 0:
                 raise Unsupported("add_event: `%s` missing or out of order" % piece)
+            marks[piece] = p
             pos = p
+        if "await" in text[marks["if event.id in in_flight:"]:marks["in_flight.add(event.id)"]]:
+            raise Unsupported("add_event awaits between the duplicate tests and the registration of the id")
         cs = ast.unparse(_method(tree, "LMDBStorage", "check_storable"))
         if "for index in self.writer_thread.write_indexes:\n            index.write(event, probe)" not in cs or "raise StorageError(" not in cs:
             raise Unsupported("check_storable changed")
-        return "Definition add_event_checks : list pystr := [%s].\n" % "; ".join(coq_str(x) for x in ["validate", "ephemeral", "storable", "duplicate", "queue", "broadcast"])
+        return "Definition add_event_checks : list pystr := [%s].\n" % "; ".join(
+            coq_str(x) for x in ["validate", "ephemeral", "storable", "in_flight", "stored", "register", "queue", "broadcast"])
     target(out, "kvwrite.add_event", add_event)
     emit(os.path.join(outdir, "KVWrite.v"), "\n".join(out))
